@@ -71,7 +71,10 @@ ReadWin(t, rg, a, w) ==
 ScheduledOk(t, ex, a, rw) ==
   \A j \in 1..Len(rw) :
      IF rw[j].seq < 0 THEN rw[j].eps = -1 /\ rw[j].dseq = -1 /\ rw[j].h = 0
-     ELSE (rw[j].seq \in DOMAIN ex[a]) => (rw[j].dseq = rw[j].seq /\ rw[j].h = ex[a][rw[j].seq].h_out /\ rw[j].eps = t.eps)
+     ELSE (rw[j].seq \in DOMAIN ex[a]) =>
+             LET x == ex[a][rw[j].seq] IN
+             IF "pl" \in DOMAIN x THEN rw[j].dseq = x.pl.dseq /\ rw[j].h = x.pl.h /\ rw[j].eps = x.pl.eps     \* output handed over by the caller (RSx)
+             ELSE rw[j].dseq = rw[j].seq /\ rw[j].h = x.h_out /\ rw[j].eps = t.eps
 
 (* C10: a connection with a trainable zero-order-hold delay.  The schedule hands over a window extended by Ext entries computed for the   *)
 (* minimal delay; TrainableDist.apply_delay re-stamps the receive times with the current delay d, locates the first entry that has not  *)
@@ -189,6 +192,24 @@ DoRU ==
           /\ UNCHANGED <<tid, err, fin>>
 
 (* RS / RSo: run_supervisor, executed by rex (one probe log entry) or overridden by the caller with the supervisor's own result *)
+(* RSx: the caller overrides the supervisor's step with an ARBITRARY step state and output (e.g. a stateless agent that keeps handing back the  *)
+(* step state it got from reset()): the supervisor's state and rng become the given ones, the given output is published at the sequence      *)
+(* number the SCHEDULE names for this step; sequence number, time and inputs of the next step come from the schedule again.                 *)
+(* T.opx[ToString(opi)] = [h |-> given state, rngi |-> chain index of the given rng, pl |-> [eps, dseq, h] given output]                       *)
+OpX == T.opx[ToString(opi)]
+DoRSx ==
+  LET s == Clip(T, step)
+      k == T.sup
+  IN IF s = 0 THEN step' = s /\ opi' = opi + 1 /\ UNCHANGED <<tid, hcur, nexec, ring, supss, exec, lp, err, fin>>
+     ELSE LET tm == SupSlot(T, s - 1) IN
+          /\ hcur' = [hcur EXCEPT ![k] = OpX.h]
+          /\ nexec' = [nexec EXCEPT ![k] = OpX.rngi - T.kinds[k].rng0]
+          /\ ring' = [ring EXCEPT ![k] = [@ EXCEPT ![(tm.seq % T.buf[k]) + 1] = OpX.pl]]
+          /\ exec' = [exec EXCEPT ![k] = (tm.seq :> [start |-> supss.start, h |-> hcur[k], h_out |-> OpX.pl.h, rngi |-> NA, pl |-> OpX.pl]) @@ @]
+          /\ step' = s /\ opi' = opi + 1
+          /\ supss' = [supss EXCEPT !.seq = @ + 1]
+          /\ UNCHANGED <<tid, lp, err, fin>>
+
 DoRS(override) ==
   LET s == Clip(T, step)
       k == T.sup
@@ -265,7 +286,10 @@ RecErr ==
                      \* that has not been executed: rex has already written what the step will use; what it produces is still unwritten
                      THEN ~(row.eps = T.eps /\ row.start = supss.start /\ (row.h = NA \/ row.h = hcur[k]) /\ (row.out_h = NA \/ row.out_h = -1))
                 ELSE ~(row.seq = -1)}
-  IN IF bad = {} THEN NoErr
+      \* every executed step must have a row at all (a record sized too small silently drops the writes of the last steps)
+      missing == UNION {{<<k, i>> : i \in {i \in DOMAIN exec[k] : i + 1 > Len(T.rec[k])}} : k \in DOMAIN T.rec}
+  IN IF missing # {} THEN LET m == CHOOSE x \in missing : TRUE IN Err("RecordRowMissing", m, "a row for every executed step", Len(T.rec[m[1]]))
+     ELSE IF bad = {} THEN NoErr
      ELSE LET kr == CHOOSE x \in bad : TRUE IN
           Err(IF (kr[2] - 1) \in DOMAIN exec[kr[1]] THEN "RecordRow" ELSE "RecordNeverExecutedRow", kr,
               IF (kr[2] - 1) \in DOMAIN exec[kr[1]] THEN exec[kr[1]][kr[2] - 1] ELSE "seq = -1", T.rec[kr[1]][kr[2]])
@@ -303,7 +327,7 @@ Verdict(e) ==
 DoOp ==
   /\ err = NoErr /\ opi <= Len(T.ops) /\ ~fin
   /\ LET op == T.ops[opi] IN
-     IF op = "RU" THEN DoRU ELSE IF op = "RS" THEN DoRS(FALSE) ELSE DoRS(TRUE)
+     IF op = "RU" THEN DoRU ELSE IF op = "RS" THEN DoRS(FALSE) ELSE IF op = "RSx" THEN DoRSx ELSE DoRS(TRUE)
 
 Finish ==
   /\ (err # NoErr \/ opi > Len(T.ops)) /\ ~fin
